@@ -275,7 +275,7 @@ PROPS = {
         'design_ref': 'DESIGN.md section 12.14',
         'explanation': 'The plan listed C02 as not applicable (needs a reference semantics). The clause "nothing declared is silently dropped, duplicated, or attached to a different declaration than the one the source names" has a function-level core in the emitter: which slot an operation goes to and which transfer it is built from.',
         'assumptions': ['patterns of the resources are pairwise distinct (otherwise later resources overwrite earlier ones: not checked by the compiler)', 'shims listed in level_note'],
-        'not_decided': ['the evaluator side of the translation (that the evaluated spec means what the source says)', 'schemas (value_schema and below), content_headers, annotations, xfer_id; that a response shared by several alternatives carries only the LAST alternative\'s headers / description is what the code does and what the contract states — whether the earlier ones should be merged is a language-design question, 'uniqueness of URI patterns across resources', 'operationId uniqueness'],
+        'not_decided': ['the evaluator side of the translation (that the evaluated spec means what the source says)', 'schemas (value_schema and below), content_headers, annotations, xfer_id; that a response shared by several alternatives carries only the LAST alternative\'s headers / description is what the code does and what the contract states — whether the earlier ones should be merged is a language-design question', 'uniqueness of URI patterns across resources', 'operationId uniqueness'],
     },
     'C03': {
         'units': ['c03'],
